@@ -313,7 +313,7 @@ func (vc *VC) oblige(fr *Frame, ins ssa.Instruction, kind string, sub int, goal 
 // obligeNamed adds an obligation with an explicit name (contracts).
 func (vc *VC) obligeNamed(fr *Frame, name, kind, goal string, tags []string, desc string) {
 	reach := fr.reach
-	if reach == tFalse {
+	if reach == tFalse || vc.specDepth > 0 {
 		return
 	}
 	vc.obSeen[name]++
@@ -536,4 +536,49 @@ func (w *World) methodOf(t types.Type, name string) *ssa.Function {
 		}
 	}
 	return nil
+}
+
+// sumWidth builds the application sum_<kind>(H, base, k) and emits its unfolding at k.
+func (vc *VC) sumWidth(kind string, st *State, x *Val, k string) string {
+	var lf Leaf
+	var elemW func(arr, base, j string) string
+	switch kind {
+	case "upwidth": // []UserProp: [2]string, two slots per element; width = key empty ? 0 : 5 + len(key) + len(val)
+		lf = Leaf{Sort: "Int", Key: "H_string.l"}
+		elemW = func(arr, base, j string) string {
+			kl := sel(arr, add(base, mul(j, "2")))
+			vl := sel(arr, add(add(base, mul(j, "2")), "1"))
+			return ite(eq(kl, "0"), "0", add(add("5", kl), vl))
+		}
+	case "sidwidth": // []uint32: value 0 ? 0 : 1 + width of the variable byte integer
+		lf = Leaf{Sort: "(_ BitVec 32)", Key: "H_uint32"}
+		elemW = func(arr, base, j string) string {
+			v := sx("bv2nat", sel(arr, add(base, j)))
+			w := ite(lt(v, "128"), "1", ite(lt(v, "16384"), "2", ite(lt(v, "2097152"), "3", ite(lt(v, "268435456"), "4", "5"))))
+			return ite(eq(v, "0"), "0", add("1", w))
+		}
+	case "tfwidth": // []TopicFilter: filter (bindata) + options, two slots; width = 3 + len(filter)
+		lf = Leaf{Sort: "Int", Key: "H_mq.bindata.l"}
+		elemW = func(arr, base, j string) string { return add("3", sel(arr, add(base, mul(j, "2")))) }
+	case "wswidth": // []wstring: one slot; width = 2 + len
+		lf = Leaf{Sort: "Int", Key: "H_mq.bindata.l"}
+		elemW = func(arr, base, j string) string { return add("2", sel(arr, add(base, j))) }
+	}
+	rememberLeaf(lf)
+	arr := vc.arr(st, lf)
+	fn := "sum_" + kind
+	if !vc.declared[fn] {
+		vc.declared[fn] = true
+		vc.decls = append(vc.decls, fmt.Sprintf("(declare-fun %s ((Array Int %s) Int Int) Int)", fn, lf.Sort))
+	}
+	app := func(kk string) string { return fmt.Sprintf("(%s %s %s %s)", fn, arr, x.L[0], kk) }
+	t := app(k)
+	key := "unfold|" + t
+	if _, done := vc.instDone[key]; !done && vc.noDefine == 0 && !strings.Contains(k, "q_") {
+		vc.instDone[key] = len(vc.items)
+		km1 := sub(k, "1")
+		vc.cmd("(assert " + eq(t, ite(le(k, "0"), "0", add(app(km1), elemW(arr, x.L[0], km1)))) + ")")
+		vc.cmd("(assert " + le("0", t) + ")")
+	}
+	return t
 }
